@@ -13,7 +13,8 @@ if fs.exists(meson.current_source_dir() / 'FAIL')
 endif
 """
 SUB_BUILD = "project('sub')\n"
-SUB_OPTIONS = "option('level', type: 'string', value: 'sublevel', yield: true)\n"
+SUB_OPTIONS = "option('level', type: 'string', value: 'sublevel', yield: true)\noption('mode', type: 'combo', choices: ['a', 'b', 'c'], value: 'b', yield: true)\n"
+SUB_OPTIONS_EDITED = "option('level', type: 'string', value: 'sublevel', yield: true)\noption('mode', type: 'combo', choices: ['a', 'b', 'c', 'd'], value: 'd', yield: true)\n"
 
 
 def options_text(spec):
@@ -61,11 +62,12 @@ def persisted(build, names):
     out['default_library'] = cd.optstore.get_value_for(OptionKey('default_library'))
     out['sub:default_library'] = cd.optstore.get_value_for('default_library', 'sub')
     out['sub:level'] = cd.optstore.get_value_for('level', 'sub')
+    out['sub:mode'] = cd.optstore.get_value_for('mode', 'sub')
     return out
 
 
 STEPS = [('conf', 'level', 'one'), ('conf', 'level', 'two'), ('conf', 'mode', 'a'), ('conf', 'mode', 'b'), ('conf-bad',), ('conf-sub', 'static'), ('conf-sub', 'both'),
-         ('unset-sub',), ('conf-subopt', 'mine'), ('conf-subopt', 'one'), ('unset-subopt',), ('edit', 'level-default'), ('edit', 'mode-choices'), ('edit', 'add-extra'), ('edit', 'remove-extra'), ('reconf',), ('reconf-fail',), ('wipe',),
+         ('unset-sub',), ('conf-subopt', 'mine'), ('conf-subopt', 'one'), ('unset-subopt',), ('edit', 'level-default'), ('edit', 'mode-choices'), ('edit', 'add-extra'), ('edit', 'remove-extra'), ('edit', 'sub-mode-choices'), ('reconf',), ('reconf-fail',), ('wipe',),
          ('reconf-D', 'level', 'three'), ('conf-global', 'static')]
 
 
@@ -88,6 +90,7 @@ class Model:
         out['default_library'] = self.glob
         out['sub:default_library'] = self.over if self.over is not None else self.glob
         out['sub:level'] = self.sublevel if self.sublevel is not None else self.values.get('level')
+        out['sub:mode'] = self.values.get('mode')          # a yielding combo option of the subproject: always the parent's value
         return out
 
     def reconf(self, extra_given=()):
@@ -184,6 +187,10 @@ def run_sequence(seq):
                     m.file['extra'] = ('x', None)
                 elif st[1] == 'remove-extra':
                     m.file.pop('extra', None)
+                elif st[1] == 'sub-mode-choices':
+                    # the SUBPROJECT's option file changes the choice list of its yielding option: it keeps following the parent
+                    open(os.path.join(src, 'subprojects', 'sub', 'meson.options'), 'w').write(SUB_OPTIONS_EDITED)
+                    continue
                 open(optfile, 'w').write(options_text(m.file))
                 continue
             elif kind == 'reconf':
@@ -237,6 +244,97 @@ def run_sequence(seq):
         shutil.rmtree(d, ignore_errors=True)
 
 
+# ---- a wipe changes nothing: `setup --wipe` re-derives the configuration from the recorded command lines, so every option has
+# the value it had before; and `setup --wipe -Dx=v` ends like `configure -Dx=v` followed by a plain wipe.  No reference model:
+# the state before the wipe is the oracle.  The assignments interact (buildtype expands into debug / optimization; a top-level
+# project option has the two spellings mode and :mode).
+ASSIGN = ['-Dbuildtype=release', '-Dbuildtype=debug', '-Ddebug=true', '-Ddebug=false', '-Doptimization=1', '-Dmode=b', '-D:mode=c']
+WNAMES = ['buildtype', 'debug', 'optimization', 'mode']
+
+
+def _values(build):
+    from mesonbuild import mconf
+    from mesonbuild.options import OptionKey
+    buf = io.StringIO()
+    with contextlib.redirect_stdout(buf), contextlib.redirect_stderr(buf):
+        cd = mconf.Conf(build).coredata
+    return {n: cd.optstore.get_value_for(OptionKey(n, '') if n == 'mode' else OptionKey(n)) for n in WNAMES}
+
+
+def run_wipe_sequence(seq):
+    first, rest, last = seq
+    d = tempfile.mkdtemp(prefix='c08wipe')
+    try:
+        src, build = os.path.join(d, 'src'), os.path.join(d, 'build')
+        os.makedirs(src)
+        open(os.path.join(src, 'meson.build'), 'w').write("project('w')\n")
+        open(os.path.join(src, 'meson.options'), 'w').write("option('mode', type: 'combo', choices: ['a', 'b', 'c'], value: 'a')\n")
+        rc, out = meson(['setup', '--backend=none', *first, build, src])
+        if rc != 0:
+            return f'setup {first} failed: {out[-200:]}'
+        for a in rest:
+            rc, out = meson(['configure', build, a])
+            if rc != 0:
+                return f'configure {a} failed: {out[-200:]}'
+        before = _values(build)
+        rc, out = meson(['setup', '--wipe', build, src])
+        if rc != 0:
+            return f'setup --wipe failed: {out[-200:]}'
+        after = _values(build)
+        if after != before:
+            return f'setup {list(first)}; configure {list(rest)}: the options were {before}, after `setup --wipe` they are {after}'
+        if last is not None:
+            keep = os.path.join(d, 'keep')
+            shutil.copytree(build, keep)
+            rc, out = meson(['configure', build, last])
+            if rc != 0:
+                return f'configure {last} failed: {out[-200:]}'
+            want = _values(build)
+            shutil.rmtree(build)
+            shutil.copytree(keep, build)
+            rc, out = meson(['setup', '--wipe', last, build, src])
+            if rc != 0:
+                return f'setup --wipe {last} failed: {out[-200:]}'
+            got = _values(build)
+            if got != want:
+                return f'setup {list(first)}; configure {list(rest)}: `configure {last}` gives {want}, `setup --wipe {last}` gives {got}'
+            rc, out = meson(['setup', '--wipe', build, src])
+            again = _values(build)
+            if rc != 0 or again != got:
+                return f'setup {list(first)}; configure {list(rest)}; setup --wipe {last}: the options were {got}, after another plain `setup --wipe` they are {again}'
+        return None
+    finally:
+        shutil.rmtree(d, ignore_errors=True)
+
+
+def _wipe_chunk(chunk):
+    fails, nt = [], 0
+    for seq in chunk:
+        nt += 1
+        try:
+            bad = run_wipe_sequence(seq)
+        except Exception as e:
+            bad = f'harness: {type(e).__name__}: {e}'
+        if bad:
+            fails.append({'case': {'setup': list(seq[0]), 'configure': list(seq[1]), 'wipe_with': seq[2]}, 'stage': 'wipe', 'detail': bad})
+    return len(chunk), nt, fails
+
+
+def wipe_sequences(tier, rnd):
+    out = []
+    for a in ASSIGN:
+        out.append(((a,), (), None))
+        for b in ASSIGN:
+            out.append(((a,), (b,), None))
+            out.append(((a,), (), b))
+            out.append(((), (a, b), None))
+            if a.split('=')[0] != b.split('=')[0]:
+                out.append(((a, b), (), None))
+    tri = [((a,), (b, c), None) for a in ASSIGN for b in ASSIGN for c in ASSIGN] + [((a,), (b,), c) for a in ASSIGN for b in ASSIGN for c in ASSIGN]
+    out += tri if tier != 'quick' else rnd.sample(tri, 80)
+    return out
+
+
 def _life_chunk(chunk):
     fails, nt = [], 0
     for seq in chunk:
@@ -259,7 +357,8 @@ def run(REG, tier, seed, jobs):
     else:
         seqs += list(itertools.product(STEPS, repeat=3)) + [tuple(rnd.choice(STEPS) for _ in range(rnd.randint(4, 9))) for _ in range(6000)]
     # directed histories that ordinary use does not produce
-    seqs += [(('conf', 'level', 'one'), ('edit', 'level-default'), ('reconf',), ('wipe',)),
+    seqs += [(('edit', 'mode-choices'), ('reconf',), ('conf', 'mode', 'b'), ('reconf',)), (('edit', 'sub-mode-choices'), ('reconf',), ('conf', 'mode', 'b')),
+             (('conf', 'level', 'one'), ('edit', 'level-default'), ('reconf',), ('wipe',)),
              (('conf-sub', 'static'), ('wipe',)), (('conf-sub', 'static'), ('unset-sub',), ('wipe',)),
              (('edit', 'mode-choices'), ('reconf',), ('conf', 'mode', 'b'), ('wipe',)),
              (('conf', 'mode', 'b'), ('edit', 'mode-choices'), ('reconf-fail',), ('reconf',)),
@@ -269,9 +368,15 @@ def run(REG, tier, seed, jobs):
              (('conf-subopt', 'mine'), ('unset-subopt',), ('conf', 'level', 'two')), (('conf-subopt', 'one'), ('conf', 'level', 'two'), ('wipe',)),
              (('conf-subopt', 'mine'), ('reconf',), ('unset-subopt',), ('reconf',))]
     ev, nt, fails = pmap(_life_chunk, chunked(iter(seqs), 8), jobs)
-    return {'parts': [{'name': 'C08/bounded/real-lifecycle-vs-reference-model', 'function': 'meson setup / configure / --reconfigure / --wipe (in process, --backend=none)',
+    ws = wipe_sequences(tier, rnd)
+    wev, wnt, wfails = pmap(_wipe_chunk, chunked(iter(ws), 4), jobs)
+    wpart = {'name': 'C08/bounded/wipe-changes-nothing', 'function': 'meson setup -D...; configure -D...; setup --wipe [-D] (in process, --backend=none)',
+             'bound': f'{len(ws)} histories: setup with 0-2 and configure with 0-2 of {len(ASSIGN)} interacting assignments ({", ".join(ASSIGN)}), then a plain `setup --wipe` (every option as before) and `setup --wipe -Dx` (as `configure -Dx`, and stable under another wipe)',
+             'evaluations': wev, 'distinct_nontrivial': wnt, 'rule': 'every history', 'exhaustive': tier != 'quick', 'failures': wfails}
+    return {'parts': [wpart, {'name': 'C08/bounded/real-lifecycle-vs-reference-model', 'function': 'meson setup / configure / --reconfigure / --wipe (in process, --backend=none)',
                        'bound': f'{len(seqs)} command sequences over {len(STEPS)} step kinds (configure -D valid/invalid/equal to current, -Dsub:/-Usub: override of a builtin option and of a yielding project option, option-file edits, reconfigure with/without -D, injected failure, wipe), persisted coredata and cmd_line.txt compared with a reference model after every step',
                        'evaluations': ev, 'distinct_nontrivial': nt, 'rule': 'non-trivial: at least two steps', 'exhaustive': False, 'failures': fails}]}
 
 
-CHECKS = {'C08/bounded/real-lifecycle-vs-reference-model': (_life_chunk, lambda c: tuple(tuple(s) for s in c['sequence']))}
+CHECKS = {'C08/bounded/wipe-changes-nothing': (_wipe_chunk, lambda c: (tuple(c['setup']), tuple(c['configure']), c['wipe_with'])),
+          'C08/bounded/real-lifecycle-vs-reference-model': (_life_chunk, lambda c: tuple(tuple(s) for s in c['sequence']))}
